@@ -6,8 +6,8 @@ Tie (X, with schedules), checked on every run:
   1. corpus first (props/C09/corpus/*.json): every pop order of each corpus CFG, on the real
      code, against the path-based specification (spec_paths.py);
   2. seeded random (CFG, schedule) cases: the REAL LivenessAnalysis / AssignmentAnalysis /
-     CFG.analyze of the repo under test, driven through an injected ordered work-set
-     (impl_analysis.py, no repo edit), compared with
+     CFG.analyze of the repo under test, driven through injected work-list classes (the
+     module globals `set` and `dict` of analysis.py are rebound; impl_analysis.py, no repo edit), compared with
         (a) `run_with schedule` of the Coq model, evaluated inside coqc by vm_compute, and
         (b) the brute-force path specification;
   3. failing-input search (always run): small CFGs x EVERY pop order (state-graph
@@ -233,7 +233,7 @@ def run(ctx):
     timing["corpus"] = round(time.time() - t0, 1)
 
     # ---- 2. random (CFG, schedule) pairs: impl vs model vs spec
-    n_rand = 2000 if ctx.quick else 10000
+    n_rand = 1200 if ctx.quick else 10000
     cases = [rand_case(r) for _ in range(n_rand)]
     impl = impl_batch(ctx, "run", cases)
     timing["impl_random"] = round(time.time() - t0, 1)
@@ -264,6 +264,21 @@ def run(ctx):
             spec_bad += 1
             report_spec(case, res, exp, "random (CFG, schedule) pair; pops=" + str(o.get("pops")),
                         {"model_with_as_released_requeue_gives_the_same": (coded[i] == res) if i in coded else None})
+    # was the schedule really injected?  (a refactor of the work list can defeat the rebinding
+    # of `set` / `dict`; then only the implementation's own deterministic order is exercised)
+    inj = {"backward": [0, 0], "forward": [0, 0]}
+    for case, o in zip(cases, impl):
+        if case["kind"] in ("live", "analyze"):
+            inj["backward"][1] += 1
+            inj["backward"][0] += 1 if o.get("pops") else 0
+        if case["kind"] in ("ass", "analyze"):
+            inj["forward"][1] += 1
+            inj["forward"][0] += 1 if (o.get("pops2") if case["kind"] == "analyze" else o.get("pops")) else 0
+    for d, (a, b) in inj.items():
+        if a < b:
+            ctx.notes.append(f"SCHEDULE INJECTION INEFFECTIVE for the {d} analysis in {b - a} of {b} cases: the harness "
+                             f"could not choose the pop order there; those cases exercise only the implementation's own order")
+    injected_ok = sum(1 for case, o in zip(cases, impl) if o.get("consulted", 0) > 0)
     # a model/implementation difference on a case where the implementation meets the
     # specification is a broken tie (wrong model or harness), reported as such
     if model_rep is not None:
@@ -280,10 +295,10 @@ def run(ctx):
     # ---- 3. failing-input search: small CFGs x every pop order
     small = list(small_space(2, ["live0", "live1", "liveR", "ass0", "ass1", "ass2", "an"]))
     if ctx.quick:
-        small = small[r.randrange(2)::2]
+        small = small[r.randrange(3)::3]
     exhaustive2 = 0 if ctx.quick else len(small)
     if ctx.quick:
-        small += list(small_space(3, ["live0", "ass0"], r, 1))[::7]
+        small += list(small_space(3, ["live0", "ass0"], r, 1))[::11]
         small += [dict(rand_case(r, nmax=5, nvars=2), sched=[]) for _ in range(300)]
     else:
         small += list(small_space(3, ["live0", "live1", "ass0", "ass2"], r, 2))
@@ -321,12 +336,12 @@ def run(ctx):
         info, "make -f Makefile.C09 C09/Props.vo && coqc C09/Props.v (Print Assumptions)",
         ["Coq 8.16.1 kernel; vm_compute evaluates the model in the correspondence files and in the two refutation witnesses",
          "hand-written model coq/C09/Analysis.v of BackwardAnalysis.run/LivenessAnalysis, ForwardAnalysis.run/AssignmentAnalysis (include_unreachable=True only) and CFG.analyze, tied to the code by differential execution only (no translator)",
-         "props/C09/impl_analysis.py: the injected work-set class (module global `set` of analysis.py), the frame inspection used to memoise explored states, AST statements built to make compute_variable_stats yield given use/def sets",
-         "props/C09/spec_paths.py: brute-force path specification; for initial-set variables it reads 'no infinite idle path' as 'no idle walk of n edges' (pigeonhole, not proved in Coq)",
+         "props/C09/impl_analysis.py: the injected work-list classes (module globals `set` and `dict` of analysis.py; evidence key schedule_injected says in how many cases the harness really chose the pops), the frame inspection used to memoise explored states, AST statements built to make compute_variable_stats yield given use/def sets",
+         "props/C09/spec_paths.py: brute-force path specification (for initial-set variables: 'path to a use or idle walk of n edges', for maybe_ass_before_entry variables: 'assigning path or backward walk of n edges' -- exactly the forms of live_char_initial_nwalk / maybe_char_initial_nwalk)",
          "not modelled: the witness block stored in the liveness dict (C10), ForwardAnalysis with include_unreachable=False (unused in /repo), VariableVisitor"],
         evaluations=len(cases) + n_explore_runs, distinct_nontrivial=len(distinct),
         rule="random: seeded CFGs of 2..6 blocks (sparse/dense/chain, dummy edges, duplicate edges, self loops, unreachable blocks), 3-4 variables, kinds live/ass/analyze, random schedule (rank of the popped block); search: ALL graphs on 2 blocks x all use/def patterns x 7 configurations, a slice of all graphs on 3 blocks, random CFGs of <=5-6 blocks, each under EVERY pop order (state-graph exploration of the real loop); non-trivial = at least one dummy edge or a cycle; distinct = by CFG+sets+configuration (schedule ignored)",
-        traces_validated_against_impl=agree_rep, model_vs_impl_cases=len(cases) if model_rep is not None else 0,
+        traces_validated_against_impl=min(agree_rep, injected_ok), schedule_injected={k: f"{v[0]}/{v[1]} cases" for k, v in inj.items()}, model_vs_impl_cases=len(cases) if model_rep is not None else 0,
         model_repaired_agrees=agree_rep, model_mismatches=len(mism), mismatches_explained_by_as_released_requeue=agree_cod,
         spec_vs_impl_random_disagreements=spec_bad, explored_cases=explored_cases, explored_complete_runs=n_explore_runs,
         explored_states=n_states, explored_disagreements=bad_small + bad_corpus, exhaustive_2_block_cases=exhaustive2,
